@@ -29,6 +29,7 @@ class Ctx:
         self.pc = []              # z3 constraints of this path
         self.solver = z3.Solver()
         self.solver.set('timeout', timeout_ms)
+        self.timeout_ms = timeout_ms
         self.synced = 0
         self.queries = 0
         self.solver_time = 0.0
@@ -36,6 +37,8 @@ class Ctx:
         self.notes = []
         self.known = []           # (symbol, numeral) pairs implied by the path condition
         self._known_ids = set()
+        self._sub = None
+        self._sub_n = -1
 
     # -- symbolic inputs
     def bvvar(self, name, bits):
@@ -85,14 +88,39 @@ class Ctx:
 
     def _decide(self, c):
         """Try to decide c from known equalities: True / False / None."""
-        if not self.known:
+        n = len(self.known)
+        if not n:
             return None
-        r = z3.simplify(z3.substitute(c, *self.known))
+        # (z3.substitute converts the whole pair list on every call; with hundreds of known facts that
+        # dominated the run time, so the ctypes arrays are kept and extended only when facts are added)
+        if self._sub_n != n:
+            fr = (z3.Ast * n)()
+            to = (z3.Ast * n)()
+            for i, (a_, b_) in enumerate(self.known):
+                fr[i] = a_.as_ast()
+                to[i] = b_.as_ast()
+            self._sub = (fr, to)
+            self._sub_n = n
+        r = z3.simplify(z3.BoolRef(z3.Z3_substitute(c.ctx.ref(), c.as_ast(), n, self._sub[0], self._sub[1]), c.ctx))
         if z3.is_true(r):
             return True
         if z3.is_false(r):
             return False
         return None
+
+    def resolve_int(self, v):
+        """An Int whose symbolic value is fixed by the known `symbol == numeral` facts of this path, made
+        concrete (so that map look-ups with such a key stay syntactic); otherwise returned unchanged."""
+        x = v.v
+        n = len(self.known)
+        if type(x) is int or not n:
+            return v
+        if self._sub_n != n:
+            self._decide(z3.BoolVal(True))
+        r = z3.simplify(z3.BitVecRef(z3.Z3_substitute(x.ctx.ref(), x.as_ast(), n, self._sub[0], self._sub[1]), x.ctx))
+        if z3.is_bv_value(r):
+            return Int(v.ty, r.as_long())
+        return v
 
     def _sync(self):
         if self.synced < len(self.pc):
@@ -108,13 +136,27 @@ class Ctx:
             r = self.solver.check()
         else:
             r = self.solver.check(extra)
-        self.solver_time += time.time() - t
         if r == z3.unknown:
-            raise Unmodelled('solver unknown: %s' % self.solver.reason_unknown())
+            # the per-query time limit was hit (typically on a loaded machine): one more attempt with a fresh
+            # solver and a ten times larger limit before the path is given up as inconclusive
+            s2 = z3.Solver()
+            s2.set('timeout', 10 * self.timeout_ms)
+            for c in self.pc:
+                s2.add(c)
+            self.queries += 1
+            r = s2.check() if extra is None else s2.check(extra)
+            if r == z3.unknown:
+                self.solver_time += time.time() - t
+                raise Unmodelled('solver unknown: %s' % s2.reason_unknown())
+            self.retried = getattr(self, 'retried', 0) + 1
+            self._model_solver = s2
+        else:
+            self._model_solver = self.solver
+        self.solver_time += time.time() - t
         return r == z3.sat
 
     def model(self):
-        return self.solver.model()
+        return getattr(self, '_model_solver', self.solver).model()
 
     def choose(self, conds):
         """conds: mutually exclusive, jointly exhaustive conditions (python bools or z3 Bools).
